@@ -81,6 +81,9 @@ func (g *Gen) call(st *State, in ssa.CallInstruction) Val {
 		recv := g.val(st, cc.Value)
 		g.nilCheck(st, recv, pos, "interface method call "+cc.Method.Name())
 		key := ifaceMethodKey(cc.Value.Type(), cc.Method)
+		if fn, rv, ok := g.devirtualize(st, cc.Value.Type(), cc.Method, recv); ok {
+			return g.staticCall(st, fn, append([]Val{rv}, argVals()...), resTy, pos)
+		}
 		c := g.P.ContractFor(key)
 		args := append([]Val{recv}, argVals()...)
 		sig := cc.Method.Type().(*types.Signature)
@@ -228,6 +231,17 @@ func (g *Gen) applyContractX(st *State, c *Contract, key string, names []string,
 		}
 		g.oblige(st, "pre", "@"+short, "requires "+cl.Text, pos, t)
 	}
+	// what the callee's contract assumes about the world is assumed here as well
+	// (every assume is listed in evidence)
+	for _, cl := range c.Assumes {
+		t, err := sc.boolTerm(cl.E)
+		if err != nil {
+			g.BindErrs = append(g.BindErrs, fmt.Sprintf("call %s: assume %q: %v", short, cl.Text, err))
+			continue
+		}
+		g.assumeAt(st, t)
+		g.Assumed["assume "+cl.Text+" because "+cl.Why] = true
+	}
 	pre := st.clone()
 	switch {
 	case c.Pure:
@@ -265,7 +279,10 @@ func (g *Gen) applyContractX(st *State, c *Contract, key string, names []string,
 			}
 			flat = append(flat, g.flattenArg(pre, a, a.Ty)...)
 		}
-		if heapDep {
+		if c.Stable {
+			g.Assumed["stable: "+short+" depends only on its arguments and on fields that are never written after initialisation"] = true
+		}
+		if heapDep && !c.Stable {
 			// the result may depend on heap cells reachable from a reference: it is a
 			// function of the arguments only between heap writes
 			flat = append(flat, pre.Epoch)
@@ -411,8 +428,126 @@ func (g *Gen) obligeNamed(st *State, kind string, ord int, clause string, pos to
 	n := g.counters[ck]
 	g.counters[ck] = n + 1
 	name := fmt.Sprintf("%s#%s.%d@ret%d", ShortKey(g.Key), kind, ord, n)
-	o := &Obligation{Name: name, Kind: kind, Fn: g.Key, Clause: clause, Pos: g.pos(pos), NDefs: len(g.Defs), Reach: st.Reach, Goal: goal, Gen: g}
-	g.Obls = append(g.Obls, o)
+	parts := splitGoal(goal)
+	for j, p := range parts {
+		nm := name
+		if len(parts) > 1 {
+			nm = fmt.Sprintf("%s/%d", name, j)
+		}
+		o := &Obligation{Name: nm, Kind: kind, Fn: g.Key, Clause: clause, Pos: g.pos(pos), NDefs: len(g.Defs), Reach: st.Reach, Goal: p, Gen: g}
+		g.Obls = append(g.Obls, o)
+	}
+}
+
+type allowedLoc struct {
+	ref *Term // object ref (O:) or array ref (E:)
+	lo  *Term
+	hi  *Term
+}
+
+// allowSets evaluates the entries of a modifies clause (in the given context)
+// into the locations that may change, per heap component.
+func (g *Gen) allowSets(mods []Expr, sc *SCtx, what string) map[string][]allowedLoc {
+	allow := map[string][]allowedLoc{}
+	for _, m := range mods {
+		if call, ok := m.(*ECall); ok {
+			if id, ok := call.Fun.(*EIdent); ok && id.Name == "elems" && len(call.Args) == 1 {
+				v, err := sc.eval(call.Args[0])
+				if err != nil || v.K != VSlice {
+					g.BindErrs = append(g.BindErrs, fmt.Sprintf("%s %s: %v", what, ExprString(m), err))
+					continue
+				}
+				et := v.Ty.Underlying().(*types.Slice).Elem()
+				for _, lf := range leavesOf(et) {
+					name := g.compName(&Addr{Root: RElem, RootT: et}, lf)
+					allow[name] = append(allow[name], allowedLoc{ref: v.F[0].T, lo: v.F[1].T, hi: Add(v.F[1].T, v.F[3].T)})
+				}
+				continue
+			}
+			if id, ok := call.Fun.(*EIdent); ok && id.Name == "mapof" && len(call.Args) == 1 {
+				v, err := sc.eval(call.Args[0])
+				if err != nil || v.K != VScalar || v.Ty == nil {
+					g.BindErrs = append(g.BindErrs, fmt.Sprintf("%s %s: %v", what, ExprString(m), err))
+					continue
+				}
+				if _, isMap := v.Ty.Underlying().(*types.Map); !isMap {
+					g.BindErrs = append(g.BindErrs, fmt.Sprintf("%s %s: not a map", what, ExprString(m)))
+					continue
+				}
+				mi := g.mapInfo(v.Ty)
+				for _, n := range g.uniOrder {
+					if strings.HasPrefix(n, mi.name+":") {
+						allow[n] = append(allow[n], allowedLoc{ref: v.T})
+					}
+				}
+				continue
+			}
+		}
+		a, ty, err := sc.addr(m)
+		if err != nil {
+			g.BindErrs = append(g.BindErrs, fmt.Sprintf("%s %s: %v", what, ExprString(m), err))
+			continue
+		}
+		if a.Root == RLocal {
+			continue
+		}
+		for _, lf := range leavesOf(ty) {
+			name := g.compName(a, lf)
+			switch a.Root {
+			case RObj:
+				allow[name] = append(allow[name], allowedLoc{ref: a.Ref})
+			case RElem:
+				allow[name] = append(allow[name], allowedLoc{ref: a.Ref, lo: a.Idx, hi: Add(a.Idx, IntLit(1))})
+			case RGlobal:
+				allow[name] = append(allow[name], allowedLoc{})
+			}
+		}
+	}
+	return allow
+}
+
+// unchangedOutside states that component n is the same in cur and base at every
+// location that existed at base time (ref <= clk) and is not allowed to change.
+// With skolem=true fresh constants stand for the location (a goal); otherwise the
+// statement is universally quantified (an assumption).
+func (g *Gen) unchangedOutside(n string, cur, base *Term, clk *Term, allow []allowedLoc, skolem bool) *Term {
+	mkv := func(hint string) *Term {
+		if skolem {
+			return g.fresh(hint, SInt)
+		}
+		g.nbound++
+		return BoundVar(fmt.Sprintf("%s!%d", hint, g.nbound), SInt)
+	}
+	switch n[0] {
+	case 'O', 'M':
+		r := mkv("frame.r")
+		var ok []*Term
+		for _, a := range allow {
+			ok = append(ok, Eq(r, a.ref))
+		}
+		body := Implies(And(Lt(IntLit(0), r), Le(r, clk), Not(Or(ok...))), Eq(Select(cur, r), Select(base, r)))
+		if skolem {
+			return body
+		}
+		return ForallPat([]*Term{r}, body, Select(cur, r))
+	case 'E':
+		r := mkv("frame.r")
+		i := mkv("frame.i")
+		var ok []*Term
+		for _, a := range allow {
+			ok = append(ok, And(Eq(r, a.ref), Le(a.lo, i), Lt(i, a.hi)))
+		}
+		body := Implies(And(Lt(IntLit(0), r), Le(r, clk), Not(Or(ok...))), Eq(Select(Select(cur, r), i), Select(Select(base, r), i)))
+		if skolem {
+			return body
+		}
+		return ForallPat([]*Term{r, i}, body, Select(Select(cur, r), i))
+	case 'G':
+		if len(allow) == 0 {
+			return Eq(cur, base)
+		}
+	}
+	return True
 }
 
 func (g *Gen) frameCheck(st *State, pos token.Pos) {
@@ -430,48 +565,7 @@ func (g *Gen) frameCheck(st *State, pos token.Pos) {
 	}
 	sc := g.specCtxVars(g.entry, g.entry, nil)
 	sc.useParams = true
-	type allowed struct {
-		ref *Term // object ref (O:) or array ref (E:)
-		lo  *Term
-		hi  *Term
-	}
-	allow := map[string][]allowed{}
-	for _, m := range g.C.Modifies.Mods {
-		if call, ok := m.(*ECall); ok {
-			if id, ok := call.Fun.(*EIdent); ok && id.Name == "elems" && len(call.Args) == 1 {
-				v, err := sc.eval(call.Args[0])
-				if err != nil || v.K != VSlice {
-					g.BindErrs = append(g.BindErrs, fmt.Sprintf("modifies %s: %v", ExprString(m), err))
-					continue
-				}
-				et := v.Ty.Underlying().(*types.Slice).Elem()
-				for _, lf := range leavesOf(et) {
-					name := g.compName(&Addr{Root: RElem, RootT: et}, lf)
-					allow[name] = append(allow[name], allowed{ref: v.F[0].T, lo: v.F[1].T, hi: Add(v.F[1].T, v.F[3].T)})
-				}
-				continue
-			}
-		}
-		a, ty, err := sc.addr(m)
-		if err != nil {
-			g.BindErrs = append(g.BindErrs, fmt.Sprintf("modifies %s: %v", ExprString(m), err))
-			continue
-		}
-		if a.Root == RLocal {
-			continue
-		}
-		for _, lf := range leavesOf(ty) {
-			name := g.compName(a, lf)
-			switch a.Root {
-			case RObj:
-				allow[name] = append(allow[name], allowed{ref: a.Ref})
-			case RElem:
-				allow[name] = append(allow[name], allowed{ref: a.Ref, lo: a.Idx, hi: Add(a.Idx, IntLit(1))})
-			case RGlobal:
-				allow[name] = append(allow[name], allowed{})
-			}
-		}
-	}
+	allow := g.allowSets(g.C.Modifies.Mods, sc, "modifies")
 	for _, n := range g.uniOrder {
 		if !(star || written[n]) || strings.HasPrefix(n, "I:") {
 			continue
@@ -481,29 +575,11 @@ func (g *Gen) frameCheck(st *State, pos token.Pos) {
 		if cur == nil || h0 == nil || cur == h0 {
 			continue
 		}
-		switch n[0] {
-		case 'O', 'M':
-			r := g.fresh("frame.r", SInt)
-			var ok []*Term
-			for _, a := range allow[n] {
-				ok = append(ok, Eq(r, a.ref))
-			}
-			goal := Implies(And(Lt(IntLit(0), r), Le(r, g.entry.Clk), Not(Or(ok...))), Eq(Select(cur, r), Select(h0, r)))
-			g.obligeNamed(st, "frame", g.frameOrd(n), "frame: "+n+" unchanged outside modifies", pos, goal)
-		case 'E':
-			r := g.fresh("frame.r", SInt)
-			i := g.fresh("frame.i", SInt)
-			var ok []*Term
-			for _, a := range allow[n] {
-				ok = append(ok, And(Eq(r, a.ref), Le(a.lo, i), Lt(i, a.hi)))
-			}
-			goal := Implies(And(Lt(IntLit(0), r), Le(r, g.entry.Clk), Not(Or(ok...))), Eq(Select(Select(cur, r), i), Select(Select(h0, r), i)))
-			g.obligeNamed(st, "frame", g.frameOrd(n), "frame: "+n+" unchanged outside modifies", pos, goal)
-		case 'G':
-			if len(allow[n]) == 0 {
-				g.obligeNamed(st, "frame", g.frameOrd(n), "frame: global "+n+" unchanged", pos, Eq(cur, h0))
-			}
+		goal := g.unchangedOutside(n, cur, h0, g.entry.Clk, allow[n], true)
+		if goal.IsTrue() {
+			continue
 		}
+		g.obligeNamed(st, "frame", g.frameOrd(n), "frame: "+n+" unchanged outside modifies", pos, goal)
 	}
 }
 
@@ -718,4 +794,52 @@ func (g *Gen) copyBuiltin(st *State, args []Val, cc *ssa.CallCommon, pos token.P
 		g.heapSet(st, name, cs, Store(h, d.F[0].T, nw))
 	}
 	return scalar(nC, types.Typ[types.Int])
+}
+
+// devirtualize resolves an interface method call to the single implementation
+// declared by an `impl` directive (closed world, checked at load time).
+func (g *Gen) devirtualize(st *State, it types.Type, m *types.Func, recv Val) (*ssa.Function, Val, bool) {
+	n, ok := it.(*types.Named)
+	if !ok || n.Obj().Pkg() == nil {
+		return nil, Val{}, false
+	}
+	key := n.Obj().Pkg().Path() + "." + n.Obj().Name()
+	t, ok := g.P.ImplType[key]
+	if !ok {
+		return nil, Val{}, false
+	}
+	fn := g.P.Prog.LookupMethod(t, m.Pkg(), m.Name())
+	if fn == nil {
+		return nil, Val{}, false
+	}
+	g.Assumed["closed world: interface "+ShortKey(key)+" is implemented only by "+typeStr(t)+" (every MakeInterface site in non-test code checked)"] = true
+	if recv.K == VScalar && recv.T != nil {
+		g.assume(Implies(Ne(recv.T, IntLit(0)), Eq(App("vp_dyntype", SInt, recv.T), typeID(t))))
+	}
+	rv := recv
+	rv.Ty = t
+	return fn, rv, true
+}
+
+// splitGoal splits A ⇒ (B1 ∧ B2 ...) and B1 ∧ B2 ... into separate goals.
+func splitGoal(t *Term) []*Term {
+	switch t.Op {
+	case "and":
+		var out []*Term
+		for _, a := range t.Args {
+			out = append(out, splitGoal(a)...)
+		}
+		return out
+	case "=>":
+		rs := splitGoal(t.Args[1])
+		if len(rs) == 1 {
+			return []*Term{t}
+		}
+		var out []*Term
+		for _, r := range rs {
+			out = append(out, Implies(t.Args[0], r))
+		}
+		return out
+	}
+	return []*Term{t}
 }
